@@ -934,6 +934,8 @@ unsigned int CppCheck::checkInternal(const FileWithDetails& file, const std::str
     const int maxConfigs = mSettings.getMaxConfigs();
 
     mLogger->resetExitCode();
+    // the early returns below do not reach the clear() at the end of this function
+    mLogger->clear();
 
     if (Settings::terminated())
         return mLogger->exitcode();
